@@ -55,7 +55,10 @@ func ProcessCallback(
 	}()
 
 	err = callbackExecutor(cachedCtx)
-	if err == nil {
+	// Only keep the contract's state changes if the callback succeeded within its gas limit. A contract
+	// keeper may handle its own out-of-gas panic and return nil; the deferred function below then
+	// reports ErrCallbackOutOfGas, so the changes must not be written.
+	if err == nil && !cachedCtx.GasMeter().IsPastLimit() {
 		writeFn()
 	}
 
